@@ -34,6 +34,7 @@ CHECKS["C04"] = {
          "shards": {"quick": 2, "thorough": 4}},
         {"name": "sm3-huge", "pkg": "sm3", "run": "TestVX_C04Huge", "public_files": ["sm3/C04huge_pub_test.go"],
          "shards": {"quick": 2, "thorough": 3}},
+        {"name": "cold-start", "pkg": "sm3", "run": "TestVX_C04Cold", "public_files": ["sm3/Cold_pub_test.go"], "shards": 4},
     ],
     "deadline": {"quick": 200, "thorough": 3000},
 }
@@ -76,6 +77,7 @@ CHECKS["C15"] = {
          "public_files": [SM2I + "common_pub_test.go", SM2I + "C14_pub_test.go", SM2I + "C15_pub_test.go"], "shards": 4},
         {"name": "point-arith-public", "pkg": "sm2/internal", "run": "TestVX_C15_PublicArith",
          "public_files": [SM2I + "common_pub_test.go", SM2I + "C14_pub_test.go", SM2I + "C15_pub_test.go"], "shards": 8},
+        {"name": "cold-start", "pkg": "sm2/internal", "run": "TestVX_C15Cold", "public_files": [SM2I + "common_pub_test.go", SM2I + "Cold_pub_test.go"], "shards": 8},
     ],
     "deadline": {"quick": 150, "thorough": 1200},
 }
@@ -86,6 +88,7 @@ CHECKS["C18"] = {
                     "GF2P8AFFINEQB/GF2P8AFFINEINVQB semantics taken from the Intel SDM and emulated in Go",
                     "lane-merge index vectors are checked only on the positions their write masks consume"],
     "parts": [
+        {"name": "derivation-programs", "cmd": ["python3", "{verif}/tools/c18_derivation.py"]},
         {"name": "sm2-tables", "pkg": "sm2/internal", "run": "TestVX_C18_SM2Tables", "kind": "internal",
          "files": [SM2I + "common_int_test.go", SM2I + "C18_int_test.go"], "shards": 8},
         {"name": "sm4-go-tables", "pkg": "sm4", "run": "TestVX_C18_SM4Go", "kind": "internal", "files": ["sm4/C18_int_test.go"]},
@@ -100,6 +103,7 @@ CHECKS["C12"] = {
     "assumptions": ["sm2ref is the oracle for [d]G and the curve equation", "candidate streams with at most 3 rejected candidates"],
     "parts": [
         {"name": "keys", "pkg": "sm2", "run": "TestVX_C12", "public_files": SM2P + ["sm2/C12_pub_test.go"], "shards": 8},
+        {"name": "cold-start", "pkg": "sm2", "run": "TestVX_SM2Cold", "public_files": SM2P + ["sm2/Cold_pub_test.go"], "shards": 6, "env": {"VX_PART": "cold-start"}},
     ],
 }
 
@@ -156,6 +160,9 @@ CHECKS["C05"] = {
         {"name": "block-public", "pkg": "sm4", "run": "TestVX_C05_Public", "public_files": SM4P + ["sm4/C05_pub_test.go"], "shards": 4},
         {"name": "block-public-generic", "variant": "generic", "pkg": "sm4", "run": "TestVX_C05_Public", "public_files": SM4P + ["sm4/C05_pub_test.go"],
          "shards": 4, "env": {"VX_PART": "block-public-generic"}},
+        {"name": "cold-start", "pkg": "sm4", "run": "TestVX_C05Cold", "public_files": SM4P + ["sm4/Cold_pub_test.go"], "shards": 8, "env": {"VX_PART": "cold-start"}},
+        {"name": "cold-start-generic", "variant": "generic", "pkg": "sm4", "run": "TestVX_C05Cold", "public_files": SM4P + ["sm4/Cold_pub_test.go"],
+         "shards": 8, "env": {"VX_PART": "cold-start-generic"}},
     ],
     "prepare": {"generic": [["python3", "{verif}/tools/prep_generic.py", "{repo}"]]},
     "deadline": {"quick": 150, "thorough": 2400},
@@ -255,6 +262,8 @@ CHECKS["C17"] = {
         {"name": "asm-static-state", "cmd": ["env", "VX_ASMTAINT_ONLY=static-write", "VX_ASMTAINT_PROP=C17", "VX_ASMTAINT_PART=asm-static-state", "python3", "{verif}/tools/asmtaint.py"]},
         {"name": "race-sm4", "variant": "sched", "race": True, "pkg": "sm4", "run": "TestVX_C17_SM4_Race", "public_files": C17F, "gomaxprocs": 16},
         {"name": "race-sm2", "variant": "sched", "race": True, "pkg": "sm2", "run": "TestVX_C17_SM2_Race", "public_files": SM2P + ["sm2/C17_pub_test.go"], "gomaxprocs": 16},
+        {"name": "cold-concurrent", "race": True, "pkg": "sm2", "run": "TestVX_SM2Cold", "public_files": SM2P + ["sm2/Cold_pub_test.go"], "gomaxprocs": 16, "shards": 8,
+         "env": {"VX_PART": "cold-concurrent"}},
     ],
     "deadline": {"quick": 300, "thorough": 3000},
 }
